@@ -1,6 +1,222 @@
-/- Driver/C07 — stub until the property's model driver is written. -/
+/-
+Driver/C07 — runs the integrity acceptor models (Model/Integrity) on protocol lines, with the
+hash parameter instantiated by the executable specs: MD5 (Spec/Md5), SHA-256 (Spec/Sha256),
+lookup3 `hashlittle` (Model/Jenkins, = Spec/Lookup3 by Props/C09).
+
+  begin <kind> [args] <hex>      set the base artifact (kind: enc aidx aidxc lru upd lhdr seg v1) → ok
+  load | flip <bit> | sub <pos> <byte> | trunc <n> | ext <pos> <hex>
+                                 evaluate the acceptor on the (mutated) base artifact
+  v1ck                           (after a v1 line) the checksum text extract_checksum found
+  fields                         (after an aidx line) the footer fields of the accepted index
+  begin cache hooks=<0|1> skip=<n> layers=<n>
+  putv k c v | putl i k v | corrupt i k v | getv k <c|none> | has k
+  caput c v | cacorrupt c v | caget c
+-/
 import Driver.Common
-open Drv
+import Cascette.Model.Integrity
+import Cascette.Model.Jenkins
+import Cascette.Spec.Md5
+import Cascette.Spec.Sha256
+open Cascette Drv
+open Cascette.Model.Integrity
+
+def md5H : Hash := Spec.Md5.md5
+def shaH : Hash := Spec.Sha256.sha256
+def hl0 (b : Bytes) : Nat := (Model.Jenkins.hashlittle b 0).toNat
+def hlA (b : Bytes) : Nat := (Model.Jenkins.hashlittle b 0x3D6BE971).toNat
+
+/-- rolling digest both sides print for longer values. -/
+def fold32 (acc : Nat) (xs : List Nat) : Nat := xs.foldl (fun a x => (a * 31 + x) % 4294967296) acc
+
+def bytesNat (b : Bytes) : List Nat := b.map (·.toNat)
+
+structure St where
+  kind : String := ""
+  base : Bytes := []
+  param : Nat := 0
+  last : Bytes := []          -- last evaluated v1 input
+  cfg : Cache.Cfg := ⟨true, 0⟩
+  layers : List Cache.Layer := []
+  ca : Cache.Layer := []
+
+def encErr : Enc.Err → String
+  | .checksum => "err:checksum" | .magic => "err:magic" | .header => "err:header"
+  | .espec => "err:espec" | .io => "err:io" | .binrw => "err:binrw"
+
+def evalArtifact (kind : String) (param : Nat) (d : Bytes) : String :=
+  match kind with
+  | "enc" =>
+    match Enc.parse md5H d with
+    | .ok (c, e) => s!"ok c={c} e={e}"
+    | .error e => encErr e
+  | "aidx" | "aidxc" =>
+    match Aidx.footerCheck md5H (kind == "aidx") d with
+    | .panic => "panic" | .io => "err:io" | .checksum => "err:checksum" | .format => "err:format" | .size => "err:size"
+    | .pass _ _ _ _ => "pass"
+  | "lru" =>
+    match Lru.deserialize md5H d with
+    | none => "none"
+    | some f =>
+      let x := f.entries.foldl (fun a e => fold32 a ([e.prev, e.next] ++ bytesNat e.ekey ++ [e.flags])) 7
+      s!"ok v={f.version} h={f.head} t={f.tail} n={f.entries.length} x={x}"
+  | "upd" =>
+    let es := Upd.sectionEntries (d.length / Upd.pageSize + 1) d
+    let bad := (es.filter (fun e => !Upd.validate hl0 e)).length
+    let x := es.foldl (fun a e =>
+      let p := Upd.fromBytes e
+      fold32 a ([p.guard] ++ bytesNat p.ekey ++ [p.archiveId, p.archiveOffset, p.size, p.status])) 7
+    s!"n={es.length} bad={bad} x={x}"
+  | "lhdr" =>
+    if d.length < Lhdr.size then "none" else
+    let h := d.take Lhdr.size
+    let v := if Lhdr.validate hlA param h then 1 else 0
+    s!"valid={v} key={hexOf (h.take 16).reverse} size={beNat (slice h 16 4)} flags={leNat (slice h 20 2)}"
+  | "seg" =>
+    match Lhdr.segmentLoad d with
+    | none => "none"
+    | some hs =>
+      let bad := ((hs.zipIdx).filter (fun (h, i) => !Lhdr.validate hlA (i * Lhdr.size) h)).length
+      let x := hs.foldl (fun a h => fold32 a (bytesNat (h.take 22))) 7
+      s!"ok bad={bad} x={x}"
+  | "v1" =>
+    match V1.check shaH d with
+    | .checksumErr => "err:checksum"
+    | .pass _ _ => "pass"
+  | _ => "bad-op"
+
+def outStr : Cache.Out → String
+  | .ok => "ok" | .none => "none" | .hit v => "hit " ++ hexOf v | .invalid => "err:validation"
+  | .corrupt => "err:corruption" | .badLayer => "err:layer"
+
+def kv? (s : String) (key : String) : Option Nat :=
+  match s.splitOn "=" with
+  | [k, v] => if k == key then v.toNat? else none
+  | _ => none
+
+/-- cache keys and content keys are 16 bytes. -/
+def key16? (s : String) : Option Bytes :=
+  match parseHex s with
+  | some b => if b.length = 16 then some b else none
+  | none => none
+
+def mutate (st : St) (d : Bytes) : St × String :=
+  ({ st with last := d }, evalArtifact st.kind st.param d)
+
+def handle (st : St) : List String → St × String
+  | ["begin", "cache", h, sk, ly] =>
+    match kv? h "hooks", kv? sk "skip", kv? ly "layers" with
+    | some h, some sk, some ly =>
+      ({ st with kind := "cache", cfg := ⟨h == 1, sk⟩, layers := List.replicate ly [], ca := [] }, "ok")
+    | _, _, _ => (st, "bad-op")
+  | ["begin", "lhdr", p, hx] =>
+    match p.toNat?, parseHex hx with
+    | some p, some b => ({ st with kind := "lhdr", base := b, param := p, last := b }, "ok")
+    | _, _ => (st, "bad-op")
+  | ["begin", kind, hx] =>
+    if ["enc", "aidx", "aidxc", "lru", "upd", "seg", "v1"].contains kind then
+      match parseHex hx with
+      | some b => ({ st with kind := kind, base := b, param := 0, last := b }, "ok")
+      | none => (st, "bad-op")
+    else (st, "bad-op")
+  | ["load"] => if st.kind == "cache" || st.kind == "" then (st, "bad-op") else mutate st st.base
+  | ["flip", bit] =>
+    if st.kind == "cache" || st.kind == "" then (st, "bad-op") else
+    match bit.toNat? with
+    | some bit =>
+      let i := bit / 8
+      if i < st.base.length then
+        mutate st (st.base.set i (st.base.getD i 0 ^^^ BitVec.ofNat 8 (2 ^ (bit % 8))))
+      else (st, "bad-op")
+    | none => (st, "bad-op")
+  | ["sub", pos, byte] =>
+    if st.kind == "cache" || st.kind == "" then (st, "bad-op") else
+    match pos.toNat?, byte.toNat? with
+    | some i, some x => if i < st.base.length ∧ x < 256 then mutate st (st.base.set i (BitVec.ofNat 8 x)) else (st, "bad-op")
+    | _, _ => (st, "bad-op")
+  | ["trunc", n] =>
+    if st.kind == "cache" || st.kind == "" then (st, "bad-op") else
+    match n.toNat? with
+    | some n => if n ≤ st.base.length then mutate st (st.base.take n) else (st, "bad-op")
+    | none => (st, "bad-op")
+  | ["ext", pos, hx] =>
+    if st.kind == "cache" || st.kind == "" then (st, "bad-op") else
+    match pos.toNat?, parseHex hx with
+    | some i, some x => if i ≤ st.base.length then mutate st (st.base.take i ++ x ++ st.base.drop i) else (st, "bad-op")
+    | _, _ => (st, "bad-op")
+  | ["fields"] =>
+    if st.kind != "aidx" then (st, "bad-op") else
+    match Aidx.footerCheck md5H true st.last with
+    | .pass v ob ekl cnt => (st, s!"v={v} ob={ob} ekl={ekl} cnt={cnt}")
+    | _ => (st, "rejected")
+  | ["v1ck"] =>
+    if st.kind != "v1" then (st, "bad-op") else
+    match V1.check shaH st.last with
+    | .checksumErr => (st, "err:checksum")
+    | .pass _ none => (st, "none")
+    | .pass _ (some c) => (st, hexOf c)
+  | ["big", n] =>
+    -- a value of `n` bytes read back under a content key that is not its MD5 (the harness does
+    -- not ship the 100 MiB value through the protocol): only the size exemption decides
+    if st.kind != "cache" then (st, "bad-op") else
+    match n.toNat? with
+    | some n =>
+      if n ≤ st.cfg.skipAbove + 16 then
+        (st, if !st.cfg.hooks || Cache.hooksValidLen st.cfg n false then s!"hit len={n}" else "err:corruption")
+      else (st, "bad-op")
+    | none => (st, "bad-op")
+  | ["putv", k, c, v] =>
+    if st.kind != "cache" then (st, "bad-op") else
+    match key16? k, key16? c, parseHex v with
+    | some k, some c, some v =>
+      let (s, o) := Cache.putValidated md5H st.cfg st.layers k c v
+      ({ st with layers := s }, outStr o)
+    | _, _, _ => (st, "bad-op")
+  | ["putl", i, k, v] =>
+    if st.kind != "cache" then (st, "bad-op") else
+    match i.toNat?, key16? k, parseHex v with
+    | some i, some k, some v =>
+      let (s, o) := Cache.putLayer st.layers i k v
+      ({ st with layers := s }, outStr o)
+    | _, _, _ => (st, "bad-op")
+  | ["corrupt", i, k, v] =>
+    if st.kind != "cache" then (st, "bad-op") else
+    match i.toNat?, key16? k, parseHex v with
+    | some i, some k, some v =>
+      if i != 1 || st.layers.length != 2 then (st, "bad-op") else
+      let (s, o) := Cache.corruptLayer st.layers i k v
+      ({ st with layers := s }, outStr o)
+    | _, _, _ => (st, "bad-op")
+  | ["getv", k, c] =>
+    if st.kind != "cache" then (st, "bad-op") else
+    match key16? k, (if c == "none" then some none else (key16? c).map some) with
+    | some k, some e =>
+      let (s, o) := Cache.getValidated md5H st.cfg st.layers k e
+      ({ st with layers := s }, outStr o)
+    | _, _ => (st, "bad-op")
+  | ["has", k] =>
+    if st.kind != "cache" then (st, "bad-op") else
+    match key16? k with
+    | some k => (st, String.ofList (st.layers.map fun l => if (Cache.lookup k l).isSome then '1' else '0'))
+    | none => (st, "bad-op")
+  | ["caput", c, v] =>
+    if st.kind != "cache" then (st, "bad-op") else
+    match key16? c, parseHex v with
+    | some c, some v =>
+      let (l, o) := Cache.caPut md5H st.ca c v
+      ({ st with ca := l }, outStr o)
+    | _, _ => (st, "bad-op")
+  | ["cacorrupt", c, v] =>
+    if st.kind != "cache" then (st, "bad-op") else
+    match key16? c, parseHex v with
+    | some c, some v =>
+      if (Cache.lookup c st.ca).isSome then ({ st with ca := Cache.insert c v st.ca }, "ok") else (st, "none")
+    | _, _ => (st, "bad-op")
+  | ["caget", c] =>
+    if st.kind != "cache" then (st, "bad-op") else
+    match key16? c with
+    | some c => (st, outStr (Cache.caGet md5H st.ca c))
+    | none => (st, "bad-op")
+  | _ => (st, "bad-op")
 
 def main : IO Unit := do
-  loopPure (← IO.getStdin) (← IO.getStdout) (fun _ => "bad-op")
+  loopState (← IO.getStdin) (← IO.getStdout) handle ({} : St)
